@@ -20,6 +20,8 @@ The oracle judges the IMPLEMENTATION transcript; the model transcript is only co
 import os
 import random
 
+EXTRA_PROP_MODULES = [("KB.Props.OrderC15", "KB.OrderC15")]
+
 from .. import core
 
 SUITE = "roles"
